@@ -150,6 +150,13 @@ func (d *driver) next() M {
 			inner = append(inner, M{"type": "SpendFeePool", "signer": "opchild", "to": "u4", "denom": "n1", "amt": int64(r.Intn(40))})
 		}
 		return M{"type": "ExecuteMessages", "signer": pick(r, []string{absx.Str(params["admin"]), absx.Str(params["admin"]), "x", "opchild"}), "msgs": inner}
+	case w < 99:
+		q := pick(r, []string{"NextL1Sequence", "NextL2Sequence", "BaseDenom", "BaseDenom", "BridgeInfo", "Params"})
+		e := M{"type": "Query", "q": q, "denom": ""}
+		if q == "BaseDenom" {
+			e["denom"] = pick(r, []string{"l2/1/d1", "l2/1/d2", "l2/1/d3", "n1"})
+		}
+		return e
 	default:
 		return M{"type": "ExportImport"}
 	}
